@@ -489,6 +489,7 @@ func (w *World) rulesFloatSafe(p *Pkg, fam string, weights map[string]map[string
 			nw = 16
 		}
 		type res struct {
+			exactTie int
 			unstable int
 			why      string
 			ex       string
@@ -512,6 +513,14 @@ func (w *World) rulesFloatSafe(p *Pkg, fam string, weights map[string]map[string
 					st := fstats{}
 					v := root.eval(cur, fval{}, &st)
 					if st.unstable > 0 {
+						// is it an exact half-way case of the real-valued equations?
+						renv := &rtEnv{vals: map[string]string{}, weights: weights}
+						for i, n := range names {
+							renv.vals[n] = doms[i][cur[i]]
+						}
+						if _, err := renv.eval(t, nil, rounds); err == nil && renv.tie {
+							r.exactTie++
+						}
 						r.unstable++
 						if r.ex == "" {
 							var parts []string
@@ -534,9 +543,10 @@ func (w *World) rulesFloatSafe(p *Pkg, fam string, weights map[string]map[string
 			}(wi)
 		}
 		wg.Wait()
-		unstable, bad := 0, 0
+		unstable, bad, exactTie := 0, 0, 0
 		ex, badEx := "", ""
 		for _, r := range results {
+			exactTie += r.exactTie
 			unstable += r.unstable
 			bad += r.bad
 			if ex == "" {
@@ -552,8 +562,8 @@ func (w *World) rulesFloatSafe(p *Pkg, fam string, weights map[string]map[string
 		case unstable == 0:
 			add(true, true, mname, fd, fmt.Sprintf("all %d value combinations: every rounding step and comparison is farther from its discontinuity than the float64 error bound, so the float64 code returns exactly the one-decimal value of the real-arithmetic equations", total))
 		default:
-			add(true, true, mname, fd, fmt.Sprintf("%d of %d value combinations proved float64-stable; %d sit within the error bound of a discontinuity (exact ties) and are NOT decided, e.g. %s", total-unstable, total, unstable, ex))
+			add(true, true, mname, fd, fmt.Sprintf("%d of %d value combinations proved float64-stable; %d sit within the error bound of a discontinuity, of which %d are exact half-way cases of the real-valued equations (either neighbour conforms) and %d are near-ties that are NOT decided; e.g. %s", total-unstable, total, unstable, exactTie, unstable-exactTie, ex))
 		}
-		w.Extra["floatsafe_"+k+"_"+mname] = map[string]int{"combinations": total, "stable": total - unstable, "not_decided": unstable}
+		w.Extra["floatsafe_"+k+"_"+mname] = map[string]int{"combinations": total, "stable": total - unstable, "within_error_bound": unstable, "exact_ties": exactTie, "not_decided": unstable - exactTie}
 	}
 }
